@@ -318,9 +318,9 @@ def Order.WF : Order → Prop
     (match tk with
      | some b => b.length < 2 ^ 48
      | none => True)
-instance decOrderWF : Decidable (Order.WF o) := by
-  cases o with
-  | ask k a c => unfold Order.WF; infer_instance
-  | bid k t s tk u z => unfold Order.WF; cases tk <;> infer_instance
+instance decOrderWF : (o : Order) → Decidable o.WF
+  | .ask k a c => inferInstanceAs (Decidable (k.WF ∧ WFu8 a ∧ WFu8 c))
+  | .bid k t s (some b) _ _ => inferInstanceAs (Decidable (k.WF ∧ WFu32 t ∧ WFu64 s ∧ b.length < 2 ^ 48))
+  | .bid k t s none _ _ => inferInstanceAs (Decidable (k.WF ∧ WFu32 t ∧ WFu64 s ∧ True))
 
 end Pool.C10
